@@ -47,6 +47,14 @@ def _main(prop, infile, outfile):
     assert os.path.realpath(sys.path[0] if sys.path[0] else ".") or True
     if os.environ.get("NV_BACKEND") == "fallback":
         force_fallback_backend()
+    if os.environ.get("NV_BACKEND") == "nodigitcap":
+        # import-time environment: CPython's int -> str digit limit switched off while netaddr is imported and back on (default
+        # 4300) afterwards -- whatever the library decides at import time must not depend on it
+        sys.set_int_max_str_digits(0)
+        try:
+            import netaddr  # noqa
+        finally:
+            sys.set_int_max_str_digits(4300)
     import netaddr
     assert os.path.dirname(os.path.dirname(os.path.realpath(netaddr.__file__))) == os.path.realpath(
         os.environ.get("NV_REPO", "/repo")), "netaddr not imported from the working tree: %s" % netaddr.__file__
